@@ -17,7 +17,7 @@ vars == <<pre, lab, out, ph>>
 Atoms == IF Tier = "thorough" THEN {"n", "i1", "T", "f1", "sa"} ELSE {"n", "i1", "T"}
 Leafs == Scalars(Atoms)
 \* nested values that can sit inside the container under test
-Nested == {D(<<>>), D([a |-> S("i1")]), L(<<>>), L(<<S("i1")>>)} \cup
+Nested == {EmptyD, D([a |-> S("i1")]), L(<<>>), L(<<S("i1")>>)} \cup
           (IF Tier = "thorough" THEN {D([a |-> L(<<S("n")>>)]), L(<<D([a |-> S("T")])>>)} ELSE {})
 Elems == Leafs \cup Nested
 Keys == {"a", "b"}
@@ -25,10 +25,10 @@ BadVals == {S("x"), D([a |-> S("x")]), L(<<S("x")>>), D(("#1" :> S("i1"))), L(<<
             D(("a.b" :> S("i1"))), L(<<D(("a.b" :> S("i1")))>>), D([a |-> D(("a.b" :> S("i1")))]),
             D(("a" :> S("i1")) @@ ("#n" :> S("n")))}
 ArgVals == IF Tier = "forbid" THEN BadVals \cup {S("i1"), D([a |-> S("i1")]), L(<<S("i1")>>)}
-           ELSE {S("i1"), S("T"), S("n"), S("f1"), D(<<>>), D([a |-> S("T")]), D([b |-> L(<<S("i1")>>)]),
+           ELSE {S("i1"), S("T"), S("n"), S("f1"), EmptyD, D([a |-> S("T")]), D([b |-> L(<<S("i1")>>)]),
                  L(<<>>), L(<<S("T")>>), L(<<S("i1"), D([a |-> S("n")])>>)}
 CmpVals == {L(<<>>), L(<<S("i1")>>), L(<<S("T")>>), L(<<S("i1"), S("i1")>>), L(<<S("i2")>>), L(<<S("n")>>),
-            L(<<S("sa")>>), L(<<L(<<S("i1")>>)>>), D(<<>>), D([a |-> S("i1")]), D([a |-> S("f1")]), S("i1")}
+            L(<<S("sa")>>), L(<<L(<<S("i1")>>)>>), EmptyD, D([a |-> S("i1")]), D([a |-> S("f1")]), S("i1")}
 OpKeys == IF Tier = "forbid" THEN {"a", "#1", "a.b"} ELSE {"a", "b", "c"}
 Idx == -4..3
 Slices == {<<NONE, NONE, NONE>>, <<1, NONE, NONE>>, <<NONE, 2, NONE>>, <<0, 0, NONE>>, <<1, 3, NONE>>,
@@ -76,8 +76,8 @@ KindKept == out.val.t = Kind
 \* sanity of the catalogue: what was stored can be read back
 SetThenGet ==
   ph = 1 /\ lab.op = "setitem" /\ ~IsErr(out.ret) =>
-    IF Kind = "d" THEN out.val.v[lab.k] = lab.x
-    ELSE out.val.v[NormIdx(lab.i, Len(pre.v)) + 1] = lab.x
+    IF Kind = "d" THEN out.val.m[lab.k] = lab.x
+    ELSE out.val.s[NormIdx(lab.i, Len(pre.s)) + 1] = lab.x
 LenConsistent ==
-  ph = 1 /\ lab.op \in {"append", "insert"} /\ ~IsErr(out.ret) => Len(out.val.v) = Len(pre.v) + 1
+  ph = 1 /\ lab.op \in {"append", "insert"} /\ ~IsErr(out.ret) => Len(out.val.s) = Len(pre.s) + 1
 =============================================================================
